@@ -38,6 +38,8 @@ package heap
 
 //@ pred syncedAll(h) = forall k int {h.a[k]} :: 0 <= k && k < len(h.a) ==> h.indexChanged.N[keyOf(h.a[k])] == k
 //@ pred synced(h) = h.indexChanged.tracks ==> syncedAll(h)
+//@ pred inH(h, c) = 0 <= h.indexChanged.N[c] && h.indexChanged.N[c] < len(h.a) && keyOf(h.a[h.indexChanged.N[c]]) == c
+//@ pure elemOf(h, c) = h.a[h.indexChanged.N[c]]
 //@ pred wfH(h) = fns(h) && heapOK(h) && synced(h) && h.gen >= 0
 //@ pred tiH(h) = h.gen >= old(h.gen) && (len(h.a) != old(len(h.a)) ==> h.gen > old(h.gen)) && (h.gen == old(h.gen) ==> row(old(h.a)) == old(row(h.a)))
 //@ pred same(h) = h.a == old(h.a) && h.lessFn == old(h.lessFn) && h.indexChanged == old(h.indexChanged) && h.gen == old(h.gen)
@@ -124,6 +126,8 @@ package heap
 //@   ensures mapsTo(h) && h.indexChanged.bn == old(len(h.a)) + 1 && h.indexChanged.gone == -1 && h.indexChanged.base[old(len(h.a))] == item
 //@   ensures forall j int {h.indexChanged.base[j]} :: 0 <= j && j < old(len(h.a)) ==> h.indexChanged.base[j] == old(h.a[j])
 //@   ensures C15: tiH(h)
+//@   ensures h.indexChanged.tracks ==> inH(h, keyOf(item)) && elemOf(h, keyOf(item)) == item
+//@   ensures h.indexChanged.tracks ==> (forall c HKey {h.indexChanged.N[c]} :: c != keyOf(item) ==> (inH(h, c) <==> old(inH(h, c))) && (inH(h, c) ==> elemOf(h, c) == old(elemOf(h, c))))
 
 //@ func Heap.Pop
 //@   props C05 C15
@@ -163,6 +167,8 @@ package heap
 //@   ensures mapsTo(h) && h.indexChanged.bn == old(len(h.a)) && h.indexChanged.gone == i
 //@   ensures forall j int {h.indexChanged.base[j]} :: 0 <= j && j < old(len(h.a)) ==> h.indexChanged.base[j] == old(h.a[j])
 //@   ensures C15: tiH(h)
+//@   ensures h.indexChanged.tracks ==> !inH(h, old(keyOf(h.a[i])))
+//@   ensures h.indexChanged.tracks ==> (forall c HKey {h.indexChanged.N[c]} :: c != old(keyOf(h.a[i])) ==> (inH(h, c) <==> old(inH(h, c))) && (inH(h, c) ==> elemOf(h, c) == old(elemOf(h, c))))
 
 //@ func Heap.UpdateAt
 //@   props C05 C15
@@ -180,6 +186,9 @@ package heap
 //@   ensures mapsTo(h) && h.indexChanged.bn == len(h.a) && h.indexChanged.gone == -1 && h.indexChanged.base[i] == item
 //@   ensures forall j int {h.indexChanged.base[j]} :: 0 <= j && j < len(h.a) && j != i ==> h.indexChanged.base[j] == old(h.a[j])
 //@   ensures C15: h.gen > old(h.gen) && tiH(h)
+//@   ensures h.indexChanged.tracks ==> inH(h, keyOf(item)) && elemOf(h, keyOf(item)) == item
+//@   ensures h.indexChanged.tracks && keyOf(item) != old(keyOf(h.a[i])) ==> !inH(h, old(keyOf(h.a[i])))
+//@   ensures h.indexChanged.tracks ==> (forall c HKey {h.indexChanged.N[c]} :: c != old(keyOf(h.a[i])) && c != keyOf(item) ==> (inH(h, c) <==> old(inH(h, c))) && (inH(h, c) ==> elemOf(h, c) == old(elemOf(h, c))))
 
 //@ pred distinctKeys(s) = forall k1 int, k2 int {s[k1], s[k2]} {hint(k1), hint(k2)} :: 0 <= k1 && k1 < k2 && k2 < len(s) ==> keyOf(s[k1]) != keyOf(s[k2])
 
